@@ -104,6 +104,9 @@ var writeCmdPlay = &cobra.Command{
 			return err
 		}
 		outPortName, _ := cmd.Flags().GetString("port")
+		if err := checkReadableTrackNum(cmd); err != nil {
+			return err
+		}
 		var buf bytes.Buffer
 		if err := wArgs.writeMIDITo(&buf); err != nil {
 			return err
@@ -113,12 +116,24 @@ var writeCmdPlay = &cobra.Command{
 	},
 }
 
+// checkReadableTrackNum refuses track counts that can be written but not
+// read back, event and play read what they have written.
+func checkReadableTrackNum(cmd *cobra.Command) error {
+	if n, _ := cmd.Flags().GetInt("track"); n > midix.MaxReadTrackNum {
+		return errorx.Invalid("%s requires track up to %d, %d", cmd.Name(), midix.MaxReadTrackNum, n)
+	}
+	return nil
+}
+
 var writeCmdEvent = &cobra.Command{
 	Use:   "event [FILE]",
 	Short: `write midi events`,
 	RunE: func(cmd *cobra.Command, args []string) error {
 		wArgs, err := newWriteCmdArgs(cmd, args)
 		if err != nil {
+			return err
+		}
+		if err := checkReadableTrackNum(cmd); err != nil {
 			return err
 		}
 		out, err := getOutput(cmd)
